@@ -607,3 +607,61 @@ def program_check(rep, prop, tier):
         for msg in r['problems']:
             rep.violation('%s: %s' % (prop, msg), dict(case=dict(program=r['src'], llvm_program=r['llvm_src'], problem=msg)))
     return done
+
+
+# ---------------------------------------------------------------------------------------------
+# the specification's notion of "eligible for compression" and its RVC expansion vs LLVM's compressor
+# ---------------------------------------------------------------------------------------------
+
+def compress_check(rep, tier):
+    """BB.Spec `eligible w` (w is the expansion of a legal non-hint RVC instruction) and `expand16` against LLVM:
+    whenever the specification calls a 32-bit instruction eligible, llvm-mc with +c must emit 2 bytes for it, and that
+    halfword must expand (specification) to the same instruction.  LLVM compresses MORE than expansions (e.g.
+    addi rd, rs, 0 -> c.mv), so the other direction is only counted."""
+    if not available():
+        rep.count('llvm_compress_check_skipped_no_llvm_mc')
+        return 0
+    import importlib
+    from harness import progs, textpath
+    asm = importlib.import_module('bronzebeard.asm')
+    rnd = common.rng('llvmx-compress')
+    n = 6000 if tier == 'quick' else 80000
+    cases = {}
+    for _ in range(n):
+        name, ops = progs.gen_instr(rnd)
+        ll = llvm_syntax(name, ops)
+        if ll is None:
+            continue
+        st, b = textpath.assemble_line(asm, progs.line_text(rnd, name, ops))
+        if st != 'ok' or len(b) != 4:
+            continue
+        cases[ll] = int.from_bytes(b, 'little')
+    lls = sorted(cases)
+    theirs = assemble(lls, rvc=True)
+    elig = common.drv(['eligible %d' % cases[l] for l in lls])
+    d32 = common.drv(['dec32 %d' % cases[l] for l in lls])
+    half = [int.from_bytes(t, 'little') if t is not None and len(t) == 2 else None for t in theirs]
+    x16 = common.drv(['dec16x %d' % (h if h is not None else 0) for h in half])
+    done = 0
+    for l, t, e, a, h, x in zip(lls, theirs, elig, d32, half, x16):
+        if t is None:
+            rep.count('llvm_compress_refused_by_llvm')
+            continue
+        done += 1
+        rep.evaluations += 1
+        if e == 'yes':
+            if h is None:
+                rep.violation('the specification calls %r (0x%08x) the expansion of a legal RVC instruction but LLVM does not compress it' % (
+                    l, cases[l]), dict(correspondence='BB.Spec.eligible vs llvm-mc +c', case=dict(line=l, word=cases[l])), no_input=True)
+            elif x != a:
+                rep.violation('LLVM compresses %r to 0x%04x, which the specification expands to %s, not to %s' % (l, h, x, a),
+                              dict(correspondence='BB.Spec.expand16 vs llvm-mc +c', case=dict(line=l, word=cases[l], half=h)), no_input=True)
+            else:
+                rep.count('llvm_compress_agree_eligible')
+        elif h is not None:
+            rep.count('llvm_compresses_a_non_expansion')       # LLVM's extra patterns (addi rd, rs, 0 -> c.mv, ...)
+            if x == a:
+                rep.count('llvm_compresses_a_non_expansion_same_meaning_by_text')
+        else:
+            rep.count('llvm_compress_agree_not_eligible')
+    return done
